@@ -313,7 +313,8 @@ def parent_main(prop, tier, seed, replay=None):
         ev = {"property_id": prop, "tier": tier, "seed": seed, "level": "exploration", "coverage": cov,
               "assumptions": list(getattr(mod, "ASSUMPTIONS", [])), "wall_s": round(wall, 2), "violations": len(new)}
         os.makedirs(os.path.join(VERIF, "evidence"), exist_ok=True)
-        with open(os.path.join(VERIF, "evidence", prop + ".json"), "w") as f:
+        evdir = "evidence" if not os.environ.get("VERIF_NO_EVIDENCE") else "replays"  # scratch-tree runs keep evidence
+        with open(os.path.join(VERIF, evdir, prop + ".json"), "w") as f:
             json.dump(ev, f, indent=1, sort_keys=True)
             f.write("\n")
 
